@@ -88,7 +88,7 @@ class WrapperRig(H.H11Rig):
 
 
 OPENINGS = ["plain", "plain-post", "h2c", "h2c-body", "prior", "prior+frames", "websocket", "h2c-then-more", "h2c-chunked",
-            "h2c-empty-settings", "h2c-body-mid", "h2c-body-first"]
+            "h2c-empty-settings", "h2c-body-mid", "h2c-body-first", "websocket-ka", "websocket-mixed"]
 
 
 def opening_bytes(kind):
@@ -135,8 +135,10 @@ def opening_bytes(kind):
             c.send_headers(1, [(b":method", b"GET"), (b":path", b"/pk"), (b":scheme", b"http"), (b":authority", b"example.com")], end_stream=True)
             data += c.data_to_send()
         return data, c
-    if kind == "websocket":
-        return (b"GET /ws HTTP/1.1\r\nHost: example.com\r\nUpgrade: websocket\r\nConnection: Upgrade\r\n"
+    if kind in ("websocket", "websocket-ka", "websocket-mixed"):
+        # the Connection header as browsers send it: Firefox lists keep-alive first; tokens are case-insensitive
+        conn = {"websocket": b"Upgrade", "websocket-ka": b"keep-alive, Upgrade", "websocket-mixed": b"keep-alive,  UPGRADE "}[kind]
+        return (b"GET /ws HTTP/1.1\r\nHost: example.com\r\nUpgrade: websocket\r\nConnection: " + conn + b"\r\n"
                 b"Sec-WebSocket-Key: dGhlIHNhbXBsZSBub25jZQ==\r\nSec-WebSocket-Version: 13\r\n\r\n"), c
     raise ValueError(kind)
 
@@ -149,7 +151,7 @@ def wrapper_cases(ctx, n):
         rig = WrapperRig(alpn_h2=(kind == "alpn"))
         try:
             data, _ = opening_bytes("prior+frames" if kind == "alpn" else kind)
-            if kind == "websocket":
+            if kind.startswith("websocket"):
                 data = opening_bytes("plain")[0]  # WebSocket streams need the wsproto oracle: covered end to end below
             data += rng.choice([b"", b"", b"extra-bytes", b"\x00\x00\x00\x04\x00\x00\x00\x00\x00"])
             k = rng.choice([0, 1, 2, 3])
@@ -179,7 +181,7 @@ def e2e_outcome(kind, split):
     resp = [("recv_all",), ("send", {"type": "http.response.start", "status": 200, "headers": [(b"x-proto", b"1")]}),
             ("send", {"type": "http.response.body", "body": b"ok"})]
     ws = [("recv",), ("send", {"type": "websocket.accept"}), ("recv_until_disconnect",)]
-    app = S.scripted_app([ws if kind == "websocket" else resp] * 3, records, d)
+    app = S.scripted_app([ws if kind.startswith("websocket") else resp] * 3, records, d)
     alpn = "h2" if kind == "alpn" else "http/1.1"
     rig = S.ProtoRig(app, cfg, d, alpn=alpn, ssl=(kind == "alpn"))
     data, client = opening_bytes("prior+frames" if kind == "alpn" else kind)
@@ -196,7 +198,7 @@ def e2e_outcome(kind, split):
     if kind in ("plain", "plain-post", "h2c-body", "h2c-chunked", "h2c-body-mid", "h2c-body-first"):
         outcome["wire"] = wire.split(b"\r\n")[0]
         outcome["bodies"] = [b"".join(m.get("body", b"") for m in r["received"] if m["type"] == "http.request") for r in records]
-    elif kind == "websocket":
+    elif kind.startswith("websocket"):
         outcome["wire"] = wire.split(b"\r\n")[0]
     else:
         if kind in ("h2c", "h2c-then-more", "h2c-empty-settings"):
@@ -232,6 +234,8 @@ EXPECT = {
     "h2c-empty-settings": {"scopes": [("http", "2", "/up"), ("http", "2", "/after")], "wire": b"HTTP/1.1 101 ",
                            "h2": [("ResponseReceived", 1), ("ResponseReceived", 3), ("StreamEnded", 1), ("StreamEnded", 3)]},
     "websocket": {"scopes": [("websocket", "1.1", "/ws")], "wire": b"HTTP/1.1 101 "},
+    "websocket-ka": {"scopes": [("websocket", "1.1", "/ws")], "wire": b"HTTP/1.1 101 "},
+    "websocket-mixed": {"scopes": [("websocket", "1.1", "/ws")], "wire": b"HTTP/1.1 101 "},
     "h2c": {"scopes": [("http", "2", "/up"), ("http", "2", "/after")], "wire": b"HTTP/1.1 101 ",
             "h2": [("ResponseReceived", 1), ("ResponseReceived", 3), ("StreamEnded", 1), ("StreamEnded", 3)]},
     "h2c-then-more": {"scopes": [("http", "2", "/up"), ("http", "2", "/after")], "wire": b"HTTP/1.1 101 ",
